@@ -1217,6 +1217,21 @@ class Interp:
         try:
             scal = (str, bytes, int, float, bool, type(None))
 
+            def elem_term(e) -> Value:
+                """an element of a module-level table: a literal, a nested tuple of such, or the name of a repository function"""
+                if isinstance(e, (ast.Tuple, ast.List)):
+                    return ("tuple", tuple(elem_term(x) for x in e.elts))
+                if isinstance(e, ast.Name):
+                    r_ = self.p.lookup_name(mod, e.id)
+                    if isinstance(r_, FuncInfo):
+                        return ("func", r_.fq)
+                    if isinstance(r_, ClassInfo):
+                        return ("cls", r_.fq)
+                    if e.id in ("str", "bytes", "int", "len") and r_ is None:
+                        return ("builtin", e.id)
+                    raise ValueError
+                return const(lit(e))
+
             def lit(e) -> Any:
                 if isinstance(e, ast.Constant) and isinstance(e.value, scal):
                     return e.value
@@ -1230,7 +1245,7 @@ class Interp:
             if isinstance(expr, (ast.Tuple, ast.Set)) or (isinstance(expr, ast.Call) and isinstance(expr.func, ast.Name) and expr.func.id in ("frozenset", "tuple") and len(expr.args) == 1
                                                            and isinstance(expr.args[0], (ast.Tuple, ast.Set, ast.List)) and not expr.keywords):
                 inner = expr if isinstance(expr, (ast.Tuple, ast.Set)) else expr.args[0]
-                vals = tuple(const(lit(x)) for x in inner.elts)
+                vals = tuple(elem_term(x) if isinstance(expr, ast.Tuple) else const(lit(x)) for x in inner.elts)
                 is_set = isinstance(expr, ast.Set) or (isinstance(expr, ast.Call) and expr.func.id == "frozenset")
                 out = ("set", vals) if is_set else ("tuple", vals)
             else:
